@@ -5,7 +5,7 @@
 import sys, os, json, subprocess, shutil, glob
 ROOT = os.path.dirname(os.path.dirname(os.path.abspath(__file__)))
 ids = sys.argv[1:] or sorted(os.path.basename(d) for d in glob.glob(os.path.join(ROOT, "seeded", "C*")))
-base = "/tmp/seedrun"
+base = "/tmp/seedrun_%d" % os.getpid()
 wt = base + "/repo"
 subprocess.run("git -C /repo worktree remove --force %s 2>/dev/null; rm -rf %s; mkdir -p %s" % (wt, base, base), shell=True)
 subprocess.run("git -C /repo worktree add --detach %s HEAD >/dev/null 2>&1" % wt, shell=True)
@@ -17,7 +17,7 @@ try:
         patch = os.path.join(d, "patch_ported_to_current_head.diff")
         if not os.path.exists(patch):
             patch = os.path.join(d, "patch.diff")
-        subprocess.run("git checkout -q -- .", shell=True, cwd=wt)
+        subprocess.run("git reset -q --hard HEAD", shell=True, cwd=wt)
         r = subprocess.run("git apply --3way %s" % patch, shell=True, cwd=wt, stdout=subprocess.PIPE, stderr=subprocess.STDOUT, text=True)
         meta = json.load(open(os.path.join(d, "meta.json")))
         prop = meta["property"]
@@ -28,6 +28,7 @@ try:
             classes = [l[len("violation class "):].split(":")[0] for l in p.stdout.splitlines() if l.startswith("violation class ")]
             meta["detected_by_quick_check"] = p.returncode == 1
             meta["check_exit"] = p.returncode
+            meta["check_output_tail"] = [l[:300] for l in p.stdout.splitlines() if not l.startswith("batch ")][-8:]
             meta["violation_classes"] = sorted(set(classes))[:6]
             meta["checked_against_head"] = subprocess.check_output("git -C /repo rev-parse --short HEAD", shell=True, text=True).strip()
         json.dump(meta, open(os.path.join(d, "meta.json"), "w"), indent=1)
